@@ -838,11 +838,12 @@ def _lambda_is_at(
         if last_executed is None or (p_end_line, p_end_col) > last_executed:
             last_executed = (p_end_line, p_end_col)
 
-    # The text must not go on after what `f` executes either (a lambda that ends its statement
-    # has nothing that stops the scan: it runs into the next lines).
+    # The text must not go on, on further lines, after what `f` executes either (a lambda that
+    # ends its statement has nothing that stops the scan: it runs into the next lines). Words
+    # later on the last executed line can be code the compiler folded away (`1.5 or e.y`).
     if last_executed is not None:
         for row, col in getattr(lda, "_source_words", []):
-            if as_bytes(row, col) >= last_executed:
+            if as_bytes(row, col)[0] > last_executed[0]:
                 return False
     return True
 
